@@ -154,6 +154,10 @@ func (w *walker) eval(st *wstate, v ssa.Value) *absVal {
 	switch x := v.(type) {
 	case *ssa.Const:
 		if x.Value == nil {
+			// zero value of an aggregate (go/ssa represents e.g. T{} as a nil-valued constant)
+			if _, isStruct := x.Type().Underlying().(*types.Struct); isStruct {
+				return zeroOf(x.Type())
+			}
 			return &absVal{k: avNil}
 		}
 		return avC(x.Value)
@@ -252,7 +256,7 @@ func (w *walker) transfer(st *wstate, in ssa.Instruction, prev *ssa.BasicBlock) 
 	}
 	switch x := in.(type) {
 	case *ssa.Alloc:
-		key := "A:" + x.Parent().Name() + "." + x.Name()
+		key := "A:" + x.Parent().Name() + "#" + x.Name()
 		st.allocd[key] = true
 		// re-executed alloc in a loop: reset cell
 		for k := range st.mem {
